@@ -140,7 +140,7 @@ def run_tg_case(case):
     except p.errors.PraatioException as e:
         if a >= b and isinstance(e, p.errors.ArgumentError):
             note_accept("ArgumentError(a>=b)")
-            return {"classes": ["degenerate_region"], "nontrivial": True}
+            return {"classes": ["degenerate_region"] + ([] if spec["tiers"] else ["degenerate_region_on_textgrid_without_tiers"]), "nontrivial": True}
         raise Violation("failed-on-valid-input", f"{type(e).__name__}: {e} for Textgrid.eraseRegion({a!r},{b!r},{shrink})")
     if a >= b:
         raise Violation("degenerate-region-accepted", "Textgrid.eraseRegion accepted a>=b")
@@ -282,6 +282,11 @@ def tg_cases(draw):
     if draw(st.integers(0, 3)) == 0:
         spec["maxT"] = spec["maxT"] + 1.0  # a textgrid that is longer than all of its tiers
     a, b = draw(region_for([t["entries"] for t in spec["tiers"]], style, spec["minT"], min(t["maxT"] for t in spec["tiers"])))
+    if draw(st.integers(0, 11)) == 0:
+        # a textgrid that has a span but holds no tier (yet): the region rules are the textgrid's own
+        spec = dict(spec, tiers=[])
+        if draw(st.booleans()):
+            a, b = max(a, b), min(a, b)
     return {"tg": spec, "a": a, "b": b, "shrink": draw(st.booleans())}
 
 
